@@ -6,7 +6,11 @@ A trace clause is  fn(ex, st, post, result) -> iterable of (id, z3 Bool goal, te
 
 
 def evs(st, *names):
-    return [(i, e) for i, e in enumerate(st.trace) if e.name in names]
+    """events by name.  A callee that is itself under contract is recorded as `Class.name` instead of `name`: a bare name
+    matches both, so putting a callee under contract never silently empties a clause of its callers."""
+    def hit(n):
+        return n in names or ('.' in n and n.rsplit('.', 1)[1] in names)
+    return [(i, e) for i, e in enumerate(st.trace) if hit(e.name)]
 
 
 def held(e):
